@@ -43,4 +43,47 @@ PROPS = {
             "order of requests raised within one update is not constrained (multiset comparison)",
         ],
     },
+    "C16": {
+        "parts": [
+            {"id": "C16", "runs": {"quick": 400_000, "thorough": 8_000_000},
+             "probes": ["probe.dr_written_while_input_differs_from_pin", "probe.dr_write_equal_to_merged_value",
+                        "probe.input_to_output_with_latch_differing_from_pin", "probe.pin_change_on_output_bit"]},
+        ],
+        "rule": SIG_RULE + "C16 component runs: interleavings of {CPU write DDR_p, CPU write DR_p, external pins_p := v, guest time advances} on 1-3 of the 11 ports; "
+                "signature = sequence of (op kind, port, output changed?, messages emitted, direction class); non-trivial = at least two port operations.",
+        "assumptions": [
+            "DDR read-back is not asserted (write-only on hardware, not stated by the property)",
+            "an announcement may carry the old or the new output value of its port; the last one must equal the current output; redundant announcements of the current value are allowed",
+            "initially (nothing announced) the announced value of every port counts as 0",
+        ],
+    },
+    "C10": {
+        "parts": [
+            {"id": "C10", "runs": {"quick": 40_000, "thorough": 1_500_000},
+             "probes": ["event.irq_injected_while_masked", "event.irq_injected_inside_handler", "event.irq_injected_while_paused",
+                        "event.timer_raised_requests", "probe.interrupt_entries", "probe.trap_entries", "probe.nesting_depth_ge_2", "probe.nesting_depth_ge_4", "twin_runs"]},
+        ],
+        "rule": SIG_RULE + "C10 whole-system runs: generated guest (main blocks with mask/unmask episodes, TRAPA, calls; 1-10 handlers of kinds empty/count/nested-trap/unmasking/slow) inside the real run(); "
+                "requests (single and bursts of 2-12, vectors 1-63) injected at seeded iterations, guest times, right behind handler entries, right before RTEs, behind mask blocks and while paused; "
+                "signature = sequence of (event kind, context class = nesting depth x masked x in-handler x paused, outstanding-request count) over injections, entries and returns; non-trivial = at least one entry happened.",
+        "assumptions": [
+            "order among outstanding requests is not constrained (the property does not state one)",
+            "bounded liveness: with a request outstanding, I clear and the guest running, an entry must occur within 8 boundaries; at exit nothing may be outstanding unless injected within the last 8 boundaries",
+            "an entry is recognised as SP-4 with PC right behind the 2-byte BRN that starts every generated handler; every requested vector has its own handler",
+            "requests the real timer raises (1 run in 8) are taken from the real queue as ground truth for what was requested (C17 decides generation)",
+        ],
+    },
+    "C06": {
+        "parts": [
+            {"id": "C06", "runs": {"quick": 12_000, "thorough": 400_000},
+             "probes": ["probe.interrupt_entries", "probe.trap_entries", "probe.rte_matched", "probe.rte_crafted", "probe.nesting_depth_ge_2", "probe.nesting_depth_ge_4"]},
+        ],
+        "rule": SIG_RULE + "C06 whole-system runs: same generator as C10 with more TRAPA #1-3 blocks and nested-trap handlers; every observed entry (interrupt or TRAPA) and every RTE is checked "
+                "against the frame/round-trip oracle; signature as C10; non-trivial = at least one entry happened.",
+        "assumptions": [
+            "SP upper byte is 0 (upper-byte garbage is C05/C08 ground)",
+            "UI may change at entry (the property exempts it)",
+            "for handlers with a body, memory is compared outside the stack at/below the frame and outside the handler counters; for empty handlers the comparison is exact outside the 4 frame bytes",
+        ],
+    },
 }
